@@ -251,9 +251,19 @@ def eval (fn : String) (args : List String) (impl : String) : Option Verdict := 
     let spec := (specUrr cs).filter fun p => !(create && (p.period == some 0 || (p.periodic && p.period.isNone)))
     -- `rm=<groups>`: the periodic registrations left after a Remove URR that the data plane refused
     let rm := ((impl.split (· == ' ')).toList.map (·.toString)).find? (·.startsWith "rm=")
-    pure { model := resShow r ++ " perio=" ++ perioShow p ++ (if rm.isSome then " rm=_" else ""),
+    -- `again=<groups>`: the periodic registrations after the same Create URR was handed over a second time and refused
+    let again := ((impl.split (· == ' ')).toList.map (·.toString)).find? (·.startsWith "again=")
+    let againFails : List String := match again, spec with
+      | some a, some sp =>
+        if !UrrSpec.wfb sp then [] else
+        match wantPerio seid sp with
+        | some want => if (a.drop 6).toString == want then [] else
+            [s!"C03 create-urr: after a second Create URR of the same id, refused by the data plane (the rule is live), the URR's periodic registration is '{a.drop 6}'; its triggers and period demand '{want}'"]
+        | none => []
+      | _, _ => []
+    pure { model := resShow r ++ " perio=" ++ perioShow p ++ (if again.isSome then " again=" ++ perioShow p else "") ++ (if rm.isSome then " rm=_" else ""),
            propFails := checkRule "C03" fn impl Cmd.addUrr spec UrrSpec.wfb readUrr (expectUrr link seid)
-                        ++ checkPerio (if create then "create" else "update") impl seid spec
+                        ++ checkPerio (if create then "create" else "update") impl seid spec ++ againFails
                         ++ (match rm with
                             | some f => if f == "rm=_" then [] else
                                 [s!"C15 {fn}: the URR was removed (the data plane refused the removal: it had lost the rule) and is still registered for periodic querying: {f.drop 3}"]
